@@ -9,14 +9,25 @@ L3: the property itself, stated directly on the implementation's outputs: unifor
     permutation invariance, between the extremes, masked entries ignored (= aggregating exactly
     the present members of each cell / data under a mask is irrelevant), simplex, uncertainty
     ranges and split, law of total variance for any weights.
+    Purity / re-entrancy: aggregate() is a function of (members, weights, options) AT THE TIME OF THE CALL.
+    Histories on one object (earlier calls with other inputs; the argument objects overwritten in place or
+    dropped and re-created with recycled ids; returned arrays overwritten by the caller; the same member
+    object twice) are judged by the same L2 / L3 as a call on a fresh object (+ `reuse-independent`);
+    overlapping calls on one object (another call run from inside lazily evaluated weights, or at a
+    source-line boundary as after a thread switch - complete, or itself suspended half-way - and real
+    threads) by the clause `reentrant`: every call returns what it returns alone on an object of its own.
 """
 import copy
 import math
+import os
+import sys
+import threading
+from collections.abc import Sequence
 from fractions import Fraction
 
 import numpy as np
 
-from .common import rat, unrat
+from .common import HarnessError, canon, rat, unrat
 
 TOL = 1e-12
 CLS = {"mean": "MeanAggregator", "normal": "MixedNormalAggregator",
@@ -29,27 +40,34 @@ DEFAULTS = {"mean": {"with_scale": False}, "normal": {"decomposed_scale": False}
 # --------------------------------------------------------------------------- real code
 
 
-def _aggregator(case, opts=None):
-    """the aggregator object the case is run on: a fresh instance on which the calls of `case["history"]`
-    (earlier, unrelated aggregate() calls: other members / shapes / weights / plain or masked) have already
-    been made.  The property is about every list of member predictions, so what the object was used for
-    before must not matter; every L2 / L3 judgement below is made on such a (possibly pre-used) instance."""
+_QUIET = []
+
+
+def _new_instance(case, opts=None):
     import deephyper.ensemble.aggregator as A
 
-    inst = getattr(A, CLS[case["agg"]])(**(opts if opts is not None else case["opts"]))
-    for h in case.get("history") or []:
-        hc = dict(h, agg=case["agg"])
-        try:
-            inst.aggregate(_members(hc), None if h["weights"] is None else list(h["weights"]))
-        except Exception:  # noqa: BLE001 - an earlier call that raised is part of the history too
-            pass
-    return inst
+    if not _QUIET:
+        # importing deephyper re-enables warnings; NumPy's RuntimeWarnings (log(0), sqrt of a negative rounding
+        # residue) on a tree under test are judged through the outputs, not printed
+        import warnings
+
+        warnings.filterwarnings("ignore")
+        _QUIET.append(1)
+    return getattr(A, CLS[case["agg"]])(**(opts if opts is not None else case["opts"]))
 
 
-def _arr(case, flat, mask):
+def _arr(case, flat, mask, m=None):
+    """one member array: `m["dtype"]` (default float64; the values of integer / bool members are whole numbers inside
+    the range of the dtype) and, for a MaskedArray member without masked entries, `m["ctor"] == "nomask"`: built
+    without a mask argument, so that its mask is `np.ma.nomask` (a predictor without any missing prediction)"""
     a = np.array(flat, dtype=float).reshape(tuple(case["shape"]))
+    if m and m.get("dtype"):
+        a = a.astype(m["dtype"])
     if case["masked"]:
-        a = np.ma.masked_array(a, mask=np.array(mask, dtype=bool).reshape(tuple(case["shape"])))
+        if m and m.get("ctor") == "nomask" and not any(mask):
+            a = np.ma.array(a)
+        else:
+            a = np.ma.masked_array(a, mask=np.array(mask, dtype=bool).reshape(tuple(case["shape"])))
     return a
 
 
@@ -57,9 +75,12 @@ def _members(case):
     ys = []
     for m in case["members"]:
         if case["agg"] == "normal":
-            ys.append({"loc": _arr(case, m["data"], m["mask"]), "scale": _arr(case, m["scale"], m["mask"])})
+            ys.append({"loc": _arr(case, m["data"], m["mask"], m), "scale": _arr(case, m["scale"], m["mask"], m)})
         else:
-            ys.append(_arr(case, m["data"], m["mask"]))
+            ys.append(_arr(case, m["data"], m["mask"], m))
+    for i, j in case.get("alias") or []:
+        # the SAME object given twice (a selector with replacement repeats a predictor): equal contents by construction
+        ys[j] = ys[i]
     return ys
 
 
@@ -69,21 +90,267 @@ def _dm(a):
         mask = np.array(np.ma.getmaskarray(a), dtype=bool)
         data = np.array(np.ma.filled(a.astype(float), 0.0), dtype=float)
         return data, mask
-    a = np.asarray(a, dtype=float)
+    a = np.array(a, dtype=float)
     return a, np.zeros(a.shape, dtype=bool)
 
 
-def call(case, opts=None, weights="case", members=None):
-    """run the real aggregator -> ("ok", {name: (data, mask)}) | ("exc", type name, message)"""
-    w = case["weights"] if isinstance(weights, str) else weights
-    ys = _members(case) if members is None else members
-    try:
-        out = _aggregator(case, opts).aggregate(ys, None if w is None else list(w))
-    except Exception as e:  # noqa: BLE001 - every exception is an observable outcome here
-        return ("exc", type(e).__name__, str(e)[:200])
+def _norm(out):
     if not isinstance(out, dict):
         out = {"loc": out}
-    return ("ok", {k: _dm(v) for k, v in out.items()})
+    return {k: _dm(v) for k, v in out.items()}
+
+
+# -- how the argument objects of successive calls on one aggregator object are provided
+
+
+def _ids(ys):
+    s = set()
+    for o in ys:
+        s.add(id(o))
+        if isinstance(o, dict):
+            s.update(id(v) for v in o.values())
+    return s
+
+
+def _compatible(old, new):
+    if isinstance(old, dict) or isinstance(new, dict):
+        return isinstance(old, dict) and isinstance(new, dict) and old.keys() == new.keys() and \
+            all(_compatible(old[k], new[k]) for k in old)
+    return type(old) is type(new) and old.shape == new.shape and old.dtype == new.dtype
+
+
+def _write(old, new):
+    """the caller overwrites the contents of the array object `old` in place (a predictor writing its new
+    predictions into the same output buffer)"""
+    if isinstance(old, dict):
+        for k in old:
+            _write(old[k], new[k])
+    elif isinstance(old, np.ma.MaskedArray):
+        np.ma.getdata(old)[...] = np.ma.getdata(new)
+        old.mask = np.array(np.ma.getmaskarray(new), dtype=bool)
+    else:
+        old[...] = new
+
+
+def _materialise(spec, prev, w):
+    """the argument objects `(y, weights)` of one aggregate() call.  `prev` = the argument objects of the previous
+    call on the same aggregator when this call re-uses them (`supply == "inplace"`: the same list objects and the
+    same array objects, their contents overwritten in place where class / shape allow), else None (fresh objects;
+    the caller has dropped the previous ones, so CPython may give the new arrays the ids of the dead ones)."""
+    new = _members(spec)
+    wl = None if w is None else list(w)
+    if prev is None:
+        return new, wl
+    ylist, wold = prev
+    used, out = set(), []
+    for i, m in enumerate(new):
+        old = ylist[i] if i < len(ylist) else None
+        if old is not None and id(old) not in used and _compatible(old, m):
+            _write(old, m)
+            used.add(id(old))
+            out.append(old)
+        else:
+            out.append(m)
+    for i, j in spec.get("alias") or []:
+        out[j] = out[i]
+    ylist[:] = out
+    if wl is not None and isinstance(wold, list):
+        wold[:] = wl
+        wl = wold
+    return ylist, wl
+
+
+def _scribble(out):
+    """the caller owns what aggregate() returned: it may overwrite it"""
+    for v in (out.values() if isinstance(out, dict) else [out]):
+        if isinstance(v, np.ndarray):
+            try:
+                np.ma.getdata(v)[...] = 97
+            except (ValueError, TypeError):
+                pass
+
+
+# -- a second, complete aggregate() call on the SAME object while a call is in progress
+
+
+class _LazySeq(Sequence):
+    """weights as a read-only `collections.abc.Sequence`: its `k`-th access (`len` / element) runs `hook` first"""
+
+    def __init__(self, values, at, hook):
+        self._v, self._at, self._hook, self.n, self.fired = list(values), at, hook, 0, False
+
+    def _tick(self):
+        n = self.n
+        self.n += 1
+        if n == self._at and not self.fired:
+            self.fired = True
+            self._hook()
+
+    def __len__(self):
+        self._tick()
+        return len(self._v)
+
+    def __getitem__(self, i):
+        self._tick()
+        return self._v[i]
+
+
+class _LazyArr:
+    """weights as an array-like (`__len__` + `__array__`): its `k`-th conversion / `len` runs `hook` first"""
+
+    def __init__(self, values, at, hook):
+        self._v, self._at, self._hook, self.n, self.fired = list(values), at, hook, 0, False
+
+    _tick = _LazySeq._tick
+
+    def __len__(self):
+        self._tick()
+        return len(self._v)
+
+    def __array__(self, dtype=None, copy=None):
+        self._tick()
+        return np.array(self._v, dtype=dtype if dtype is not None else float)
+
+
+def _agg_dir():
+    import deephyper.ensemble.aggregator as A
+
+    return os.path.dirname(os.path.abspath(A.__file__))
+
+
+def _preempted(fn, at, hook, st):
+    """run `fn()`; just before the `at`-th source line executed inside the aggregator package, `hook()` runs to
+    completion (what a thread switch at that point to another caller of the same object does) -> result;
+    `st["n"]` = number of lines seen, `st["fired"]`"""
+    d = _agg_dir()
+    st.update(n=0, fired=False)
+
+    def local(frame, event, arg):
+        if event == "line":
+            n = st["n"]
+            st["n"] = n + 1
+            if n == at and not st["fired"]:
+                st["fired"] = True
+                hook()
+        return local
+
+    def glob(frame, event, arg):
+        return local if frame.f_code.co_filename.startswith(d) else None
+
+    old = sys.gettrace()
+    sys.settrace(glob)
+    try:
+        return fn()
+    finally:
+        sys.settrace(old)
+
+
+class _Overlap:
+    """the other call on the same object: run to completion at the point where it starts (`pause` None), or - in a
+    thread of its own, with a hand-shake so that exactly one of the two calls advances at any time - up to its
+    `pause`-th source line, where it stays suspended until the first call has returned (the schedule
+    A[:at] B[:pause] A[at:] B[pause:] of two threads sharing the aggregator)"""
+
+    WAIT = 120.0
+
+    def __init__(self, inst, case, info):
+        self.inst, self.case, self.info, self.th = inst, case, info, None
+
+    def _body(self):
+        b = dict(self.case["nested"]["call"], agg=self.case["agg"])
+        try:
+            ys, w = _members(b), None if b["weights"] is None else list(b["weights"])
+            self.info["nested"] = ("ok", _norm(self.inst.aggregate(ys, w)))
+        except Exception as e:  # noqa: BLE001 - the outcome of the overlapping call is judged by the oracle
+            self.info["nested"] = ("exc", type(e).__name__, str(e)[:200])
+
+    def start(self):
+        pause = self.case["nested"].get("pause")
+        if pause is None:
+            return self._body()
+        self.reached, self.resume = threading.Event(), threading.Event()
+
+        def suspended():
+            self.reached.set()
+            self.resume.wait(self.WAIT)
+
+        def run():
+            try:
+                with np.errstate(all="ignore"):
+                    _preempted(self._body, pause, suspended, {})
+            finally:
+                self.reached.set()
+
+        self.th = threading.Thread(target=run, daemon=True)
+        self.th.start()
+        self.reached.wait(self.WAIT)
+
+    def finish(self):
+        if self.th is not None:
+            self.resume.set()
+            self.th.join(self.WAIT)
+            if self.th.is_alive():
+                raise HarnessError("C19: the suspended overlapping call did not finish")
+
+
+def _invoke(inst, ys, w, case, extra):
+    nested = case.get("nested")
+    if not nested:
+        return inst.aggregate(ys, w)
+    info = extra if extra is not None else {}
+    other = _Overlap(inst, case, info)
+    via, at = nested["via"], nested["at"]
+    if via in ("seq", "array") and w is not None:
+        lw = (_LazySeq if via == "seq" else _LazyArr)(w, at, other.start)
+        try:
+            return inst.aggregate(ys, lw)
+        finally:
+            other.finish()
+            info["points"], info["fired"] = lw.n, lw.fired
+    st = {}
+    try:
+        return _preempted(lambda: inst.aggregate(ys, w), at, other.start, st)
+    finally:
+        other.finish()
+        info["points"], info["fired"] = st.get("n", 0), st.get("fired", False)
+
+
+def call(case, opts=None, weights="case", extra=None):
+    """run the scenario of `case` on the real code: ONE new aggregator object, the earlier calls of
+    `case["history"]` (unrelated aggregate() calls: other members / shapes / weights / plain or masked; an earlier call
+    that raises is part of the history too), then the call itself (with `case["nested"]`: another complete call on the
+    same object while it is in progress) -> ("ok", {name: (data, mask)}) | ("exc", type name, message).
+    The property is about every list of member predictions, so what the object was used for before or is used for
+    meanwhile must not matter; every L2 / L3 judgement below is made on such a scenario."""
+    w_final = case["weights"] if isinstance(weights, str) else weights
+    try:
+        inst = _new_instance(case, opts)
+    except Exception as e:  # noqa: BLE001
+        return ("exc", type(e).__name__, str(e)[:200])
+    args, dead = None, set()
+    steps = [(dict(h, agg=case["agg"]), h["weights"], False) for h in case.get("history") or []] + [(case, w_final, True)]
+    for spec, w, final in steps:
+        if (spec.get("supply") or "fresh") != "inplace" and args is not None:
+            dead |= _ids(args[0])
+            args = None  # the arrays of the previous call die here
+        args = _materialise(spec, args, w)
+        if not final:
+            try:
+                out = inst.aggregate(args[0], args[1])
+                if case.get("scribble"):
+                    _scribble(out)
+            except Exception:  # noqa: BLE001
+                pass
+            out = None
+            continue
+        if extra is not None:
+            extra["ids_reused"] = bool(dead & _ids(args[0]))
+        try:
+            return ("ok", _norm(_invoke(inst, args[0], args[1], case, extra)))
+        except HarnessError:
+            raise
+        except Exception as e:  # noqa: BLE001 - every exception is an observable outcome here
+            return ("exc", type(e).__name__, str(e)[:200])
 
 
 # --------------------------------------------------------------------------- generator
@@ -146,11 +413,18 @@ def _weights(rng, n):
     return kind, [1.0] * (n + rng.choice([-1, 1]) if n > 1 else 2)
 
 
-def gen_case(rng, agg=None, opts=None):
+def gen_case(rng, agg=None, opts=None, like=None, same_n=True):
+    """`like`: a case whose aggregator, options, array class and shape (and member count, if `same_n`) are taken over"""
+    if like is not None:
+        agg, opts = like["agg"], like["opts"]
     agg = agg or rng.choice(["mean", "mean", "normal", "normal", "cat", "cat", "cat", "mode", "mode"])
     force_opts = opts
     n = rng.choice([1, 1, 2, 2, 3, 3, 3, 4, 5, 6, 7, 8])
     masked = rng.random() < 0.5
+    if like is not None:
+        masked = like["masked"]
+        if same_n:
+            n = len(like["members"])
     if agg in ("mean", "normal"):
         shape = list(rng.choice([(), (1,), (3,), (4,), (2, 2), (1, 3), (3, 1), (2, 1, 2), (2, 2, 2)]))
         if masked and not shape:
@@ -162,7 +436,12 @@ def gen_case(rng, agg=None, opts=None):
         if masked and not lead:
             lead = [1]
         shape = lead + [c]
+        if like is not None:
+            shape, c = list(like["shape"]), like["shape"][-1]
+            lead = shape[:-1]
         rows = int(np.prod(lead)) if lead else 1
+    if like is not None:
+        shape = list(like["shape"])
     size = int(np.prod(shape)) if shape else 1
     if agg == "mean":
         opts = {"with_scale": rng.random() < 0.5}
@@ -215,8 +494,55 @@ def gen_case(rng, agg=None, opts=None):
                 m["mask"][r * c:(r + 1) * c] = [True] * c
     perm = list(range(n))
     rng.shuffle(perm)
-    return {"agg": agg, "opts": opts, "shape": shape, "masked": masked, "members": members, "weights": w,
+    case = {"agg": agg, "opts": opts, "shape": shape, "masked": masked, "members": members, "weights": w,
             "wkind": wkind, "perm": perm, "uniform_c": rng.choice([1.0, 0.5, 2.0, 1 / n, 0.1])}
+    _array_classes(rng, case, rows, c)
+    return case
+
+
+INT_DTYPES = ["int64", "int32", "int16", "int8", "uint8", "uint16", "bool"]
+
+
+def _int_value(rng, dtype, near_limit):
+    if dtype == "bool":
+        return float(rng.random() < 0.7)
+    info = np.iinfo(dtype)
+    hi = min(int(info.max), 2 ** 40)  # float64 holds every such value, and their squared differences to 1e-16
+    if near_limit:
+        return float(rng.randint(hi // 2, hi))  # bright pixels, large labels / counts: sums leave the dtype's range
+    return float(rng.randint(max(int(info.min), -4), 4))
+
+
+def _array_classes(rng, case, rows, c):
+    """the class of the member arrays beyond float64 ndarray / MaskedArray-with-a-mask-array: integer and bool dtypes
+    (MeanAggregator: images, labels, counts - also near the limits of the dtype and mixed with float64 members;
+    ModeAggregator: hard 0/1 votes), and MaskedArray members built without a mask (`mask is np.ma.nomask`)"""
+    agg, members = case["agg"], case["members"]
+    u = rng.random()
+    if agg == "mean" and u < 0.3:
+        common = rng.choice(INT_DTYPES)
+        near = rng.random() < 0.7
+        mixed = rng.random() < 0.3
+        for m in members:
+            dt = rng.choice(INT_DTYPES + ["float64"]) if mixed else common
+            if dt != "float64":
+                m["dtype"] = dt
+                m["data"] = [_int_value(rng, dt, near) for _ in m["data"]]
+    elif agg == "mode" and u < 0.2:
+        common = rng.choice(INT_DTYPES)
+        for m in members:
+            m["dtype"] = common
+            data = []
+            for _ in range(rows):
+                row = [0.0] * c
+                for k in rng.sample(range(c), 2 if c >= 2 and rng.random() < 0.25 else 1):
+                    row[k] = 1.0
+                data += row
+            m["data"] = data
+    if case["masked"]:
+        for m in members:
+            if not any(m["mask"]) and rng.random() < 0.35:
+                m["ctor"] = "nomask"
 
 
 _CALL_KEYS = ("shape", "masked", "members", "weights")
@@ -238,6 +564,94 @@ def gen_history(rng):
     for i in range(1, len(seq)):
         out.append(dict(seq[i], history=[{k: h[k] for k in _CALL_KEYS} for h in seq[:i]]))
     return out
+
+
+def _spec(c):
+    return {k: c[k] for k in _CALL_KEYS + ("supply", "alias") if k in c}
+
+
+def _alias(rng, c):
+    """sometimes the same member object twice in one list (selection with replacement)"""
+    n = len(c["members"])
+    if n >= 2 and rng.random() < 0.15:
+        i, j = sorted(rng.sample(range(n), 2))
+        c["members"][j] = copy.deepcopy(c["members"][i])
+        c["alias"] = [[i, j]]
+    return c
+
+
+def gen_rounds(rng):
+    """2..5 aggregate() calls on ONE aggregator object with arguments of the SAME class and shape, the way a long-lived
+    ensemble is used: each later call either overwrites the previous call's argument objects in place (the same list
+    and array objects, new contents: predictors writing into their output buffers) or drops them and builds new ones
+    (equal shapes: CPython recycles the ids of the dead arrays); the member count changes now and then; the caller may
+    overwrite the arrays it got back -> one case per call after the first"""
+    first = _alias(rng, gen_case(rng))
+    seq = [first]
+    for _ in range(rng.randint(1, 4)):
+        c = _alias(rng, gen_case(rng, like=first, same_n=rng.random() < 0.8))
+        c["supply"] = rng.choice(["inplace", "inplace", "fresh"])
+        seq.append(c)
+    scribble = rng.random() < 0.3
+    out = []
+    for i in range(1, len(seq)):
+        out.append(dict(seq[i], history=[_spec(h) for h in seq[:i]], scribble=scribble))
+    return out
+
+
+def _gen_valid(rng, **kw):
+    c = gen_case(rng, **kw)
+    while not _valid(c):
+        c = gen_case(rng, **kw)
+    return c
+
+
+def count_points(case, via):
+    """number of points of the call at which another call can be made to run: accesses to the lazy weights object
+    (`seq` / `array`) or source lines executed inside the aggregator package (`line`); measured on the real code"""
+    ex = {}
+    call(dict(case, nested={"call": None, "via": via, "at": -1, "pause": None}), extra=ex)
+    return ex.get("points", 0)
+
+
+def gen_nested(rng):
+    """a call A during which another complete call B (same aggregator object, other members / weights / plain or masked)
+    runs: from inside A through lazily evaluated weights (a `collections.abc.Sequence` or an array-like whose `k`-th
+    access runs B), or at a source-line boundary of A (what a thread switch to another caller of the object does)"""
+    u = rng.random()
+    if u < 0.7:
+        a = _gen_valid(rng)
+    elif u < 0.85:
+        a = [c for c in gen_history(rng) if _valid(c)][-1:]
+        a = a[0] if a else _gen_valid(rng)
+    else:
+        a = [c for c in gen_rounds(rng) if _valid(c)][-1:]
+        a = a[0] if a else _gen_valid(rng)
+    b = _gen_valid(rng, like=a, same_n=False) if rng.random() < 0.4 else _gen_valid(rng, agg=a["agg"], opts=a["opts"])
+    via = rng.choice(["seq", "seq", "array", "line", "line"])
+    if a["weights"] is None:
+        via = "line"
+    frac, pfrac = rng.random(), rng.random()
+    a = dict(a, nested={"call": {k: b[k] for k in _CALL_KEYS}, "via": via, "at": 0, "pause": None})
+    a["nested"]["at"] = int(frac * max(1, count_points(a, via)))
+    if pfrac < 0.5:
+        # the other call gets as far as one of its own source lines and finishes only after this call has returned
+        a["nested"]["pause"] = int(2 * pfrac * max(1, count_points(dict(b, history=None, nested=None), "line")))
+    return a
+
+
+def gen_threads(rng):
+    """one aggregator object shared by 2..3 real threads, each making its own 1..3 calls over and over"""
+    first = _gen_valid(rng)
+    nt = rng.choice([2, 2, 3])
+    threads = []
+    for t in range(nt):
+        calls = [first] if t == 0 else []
+        while len(calls) < rng.randint(1, 3):
+            calls.append(_gen_valid(rng, like=first, same_n=False) if rng.random() < 0.3 else
+                         _gen_valid(rng, agg=first["agg"], opts=first["opts"]))
+        threads.append([{k: c[k] for k in _CALL_KEYS} for c in calls])
+    return {"agg": first["agg"], "opts": first["opts"], "threads": threads, "reps": 60}
 
 
 # --------------------------------------------------------------------------- L2: model
@@ -283,8 +697,25 @@ def lean_req(case, real):
     return {"op": "cat_entropy", "ws": ws, "n": n, "c": c, "rows": rows, "hloc": hloc, "hrows": hrows}
 
 
-def _close(a, b, tol=TOL):
-    return abs(a - b) <= tol * (1.0 + abs(b))
+_MAG = [1.0]
+
+
+def _set_mag(*cases):
+    """absolute tolerances are relative to the magnitude M of the member values of the case (`TOL * (M + |v|)`): the
+    rounding of a mean of values of size M is of order eps*M, and so is the noise of a scale (for the usual data,
+    |v| <= 4, this is the plain 1e-12; integer members go up to 2^40)"""
+    m = 1.0
+    for c in cases:
+        for mem in (c or {}).get("members") or []:
+            for key in ("data", "scale"):
+                if mem.get(key):
+                    m = max(m, max(abs(v) for v in mem[key]))
+    _MAG[0] = m
+    return m
+
+
+def _close(a, b, tol=TOL, square=False):
+    return abs(a - b) <= tol * ((_MAG[0] ** 2 if square else _MAG[0]) + abs(b))
 
 
 def _cmp_cells(name, dm, model, square=False):
@@ -301,13 +732,14 @@ def _cmp_cells(name, dm, model, square=False):
         if mk[j]:
             return f"{name}[{j}]: impl masked, model {float(unrat(mv))!r}"
         x = float(d[j]) ** 2 if square else float(d[j])
-        if not (math.isfinite(x) and _close(x, float(unrat(mv)))):
+        if not (math.isfinite(x) and _close(x, float(unrat(mv)), square=square)):
             return f"{name}{'^2' if square else ''}[{j}]: impl {x!r}, model {float(unrat(mv))!r}"
     return None
 
 
 def compare_model(case, real, rep):
     """-> None or a text describing the disagreement"""
+    _set_mag(case)
     agg, opts = case["agg"], case["opts"]
     if rep["err"] is not None:
         return None if real[0] == "exc" else f"model: argument error {rep['err']}, impl returned"
@@ -415,7 +847,7 @@ def _same(a, b, tie=None):
             m1 = m2 = np.zeros(d1.shape, dtype=bool) if m1.shape != d1.shape or m2.shape != d2.shape else m1 | m2
         if d1.shape != d2.shape or (m1 != m2).any():
             return f"{k}: masks/shapes differ"
-        ok = m1 | (np.abs(d1 - d2) <= TOL * (1 + np.abs(d2))) | (np.isnan(d1) & np.isnan(d2))  # NaN: `non-finite-output`
+        ok = m1 | (np.abs(d1 - d2) <= TOL * (_MAG[0] + np.abs(d2))) | (np.isnan(d1) & np.isnan(d2))  # NaN: `non-finite-output`
         for j in np.nonzero(~ok.reshape(-1))[0]:
             if k == "loc" and tie is not None and tie(int(j), d1.reshape(-1)[j], d2.reshape(-1)[j]):
                 continue
@@ -437,6 +869,8 @@ def _sub_plain(case, j, step, P):
     for i in P:
         m = case["members"][i]
         mm = {"data": m["data"][j * step:(j + 1) * step], "mask": [False] * step}
+        if m.get("dtype"):
+            mm["dtype"] = m["dtype"]
         if "scale" in m:
             mm["scale"] = m["scale"][j * step:(j + 1) * step]
         sub["members"].append(mm)
@@ -483,13 +917,70 @@ def _item_wire(it):
     return out
 
 
+def _how(nested):
+    return {"seq": "from the element access of weights given as a collections.abc.Sequence",
+            "array": "from the __array__ / __len__ of weights given as an array-like",
+            "line": "at a source-line boundary of the call, as after a thread switch"}[nested["via"]] + \
+        f", point {nested['at']}" + ("" if nested.get("pause") is None else
+                                     f"; the other call is itself suspended before its source line {nested['pause']} "
+                                     "until this call has returned")
+
+
+def _reentrant(case, memo=None):
+    """purity / re-entrancy: aggregate() is a function of (members, weights, options) at the time of the call - its
+    result is the same when another aggregate() call on the same object runs while it is in progress, and that other
+    call returns what it returns on an object of its own.  (`memo`: the two reference results, which do not depend on
+    the schedule)"""
+    nested = case["nested"]
+    memo = {} if memo is None else memo
+    _set_mag(case, nested["call"])
+    ex = {}
+    got = call(case, extra=ex)
+    if not ex.get("fired"):
+        return []
+    if "alone" not in memo:
+        memo["alone"] = call(dict(case, nested=None))
+    r = _same(got, memo["alone"], _mode_tie(case))
+    if r:
+        return [("reentrant", "the result of the call changes when another aggregate() call on the same object runs "
+                              f"while it is in progress ({_how(nested)}): " + r)]
+    b = dict(nested["call"], agg=case["agg"], opts=case["opts"])
+    if "own" not in memo:
+        memo["own"] = call(b)
+    r = _same(ex["nested"], memo["own"], _mode_tie(b))
+    if r:
+        return [("reentrant", "the result of an aggregate() call made while another call on the same object is in "
+                              f"progress ({_how(nested)}) differs from the same call on an object of its own: " + r)]
+    return []
+
+
+def _canon_overlap(case):
+    """when it is the OTHER call of the schedule whose result is wrong, look at the schedule from its side: that call
+    with the first one running (completely, or suspended) during it"""
+    _set_mag(case, case["nested"]["call"])
+    ex = {}
+    got = call(case, extra=ex)
+    if not ex.get("fired") or _same(got, call(dict(case, nested=None)), _mode_tie(case)):
+        return case
+    sw = dict(case["nested"]["call"], agg=case["agg"], opts=case["opts"], perm=None,
+              nested={"call": {k: case[k] for k in _CALL_KEYS}, "via": "line", "at": 0, "pause": None})
+    return find_schedule(sw) or case
+
+
 def oracle(case, only=None, items_out=None):
     """the property on the real code's outputs -> list of (clause, detail)"""
     if not _valid(case):
         return []
+    if case.get("nested"):
+        # the call made alone is judged by every clause; `reentrant` ties the overlapped run to the run made alone
+        fails = [] if only == "reentrant" else oracle(dict(case, nested=None), only, items_out)
+        if only is None or only == "reentrant":
+            fails = fails + _reentrant(case)
+        return fails
     agg, opts = case["agg"], case["opts"]
     n = len(case["members"])
     fails = []
+    _set_mag(case)
 
     def want(clause):
         return only is None or only == clause
@@ -569,7 +1060,8 @@ def oracle(case, only=None, items_out=None):
     # -- permuting members together with their weights
     if want("perm") and n > 1:
         p = case.get("perm") or list(range(n))[::-1]
-        c2 = dict(case, members=[case["members"][i] for i in p], weights=None if w is None else [w[i] for i in p])
+        c2 = dict(case, members=[case["members"][i] for i in p], weights=None if w is None else [w[i] for i in p],
+                  alias=[[p.index(i), p.index(j)] for i, j in case.get("alias") or []])
         r = _same(base, call(c2), tie)
         if r:
             fails.append(("perm", r))
@@ -583,7 +1075,8 @@ def oracle(case, only=None, items_out=None):
                 ys = [None if m["mask"][j] else m["data"][j] for m in case["members"]]
                 vals = [y for y in ys if y is not None]
                 if not mk[j] and vals:
-                    emit("between", {"k": "between", "tol": TOL, "ws": wl, "ys": ys, "a": d[j]},
+                    emit("between", {"k": "between", "tol": TOL * (1.0 + max(abs(v) for v in vals)), "ws": wl, "ys": ys,
+                                     "a": d[j]},
                          f"loc[{j}]={d[j]!r} outside [{min(vals)}, {max(vals)}]")
     # -- masked entries are ignored
     if case["masked"] and want("masked-ignored"):
@@ -729,62 +1222,161 @@ def _wclass(w):
 def _fails(case, clause):
     try:
         return any(c == clause for c, _ in oracle(case, only=clause))
+    except HarnessError:
+        raise
     except Exception:  # a shrink candidate that is not a well-formed case
         return False
 
 
+def _fails_at(case, clause):
+    """the (possibly re-timed) candidate on which `clause` fails, or None.  A candidate with an overlapping call is
+    tried at its own point first, then at every source-line boundary of the call (the point at which the other
+    call has to run moves when options / weights / members change)"""
+    if _fails(case, clause):
+        return case
+    if case.get("nested") and clause == "reentrant":
+        return find_schedule(case)
+    return None
+
+
+_PAIR_SCANS = [0]
+
+
+def find_schedule(case, budget=True):
+    """a schedule of the two calls of `case` on which `reentrant` fails: the other call complete at every source-line
+    boundary of the call; then, when the schedule of `case` suspends the other call (while shrinking: at most 25 such
+    searches per run), suspended at each of its own lines as well"""
+    try:
+        if not _valid(case):
+            return None
+        memo = {}
+        na = count_points(case, "line")
+        for at in range(na):
+            c2 = dict(case, nested=dict(case["nested"], via="line", at=at, pause=None))
+            if _reentrant(c2, memo):
+                return c2
+        if case["nested"].get("pause") is None or (budget and _PAIR_SCANS[0] >= 25):
+            return None
+        _PAIR_SCANS[0] += budget
+        b = dict(case["nested"]["call"], agg=case["agg"], opts=case["opts"])
+        nb = count_points(b, "line")
+        for pause in range(nb):
+            for at in range(na):
+                c2 = dict(case, nested=dict(case["nested"], via="line", at=at, pause=pause))
+                if _reentrant(c2, memo):
+                    return c2
+    except HarnessError:
+        raise
+    except Exception:  # noqa: BLE001 - a shrink candidate that is not a well-formed case
+        return None
+    return None
+
+
+def _drop_member(c2, i):
+    del c2["members"][i]
+    if c2["weights"] is not None:
+        del c2["weights"][i]
+    c2["perm"] = None
+    c2["alias"] = [[a - (a > i), b - (b > i)] for a, b in c2.get("alias") or [] if i not in (a, b)]
+
+
 def shrink(case, clause):
     case = copy.deepcopy(case)
-    n = len(case["members"])
 
     def attempt(c2):
         nonlocal case
-        if _fails(c2, clause):
-            case = c2
+        c3 = _fails_at(c2, clause)
+        if c3 is not None:
+            case = c3
             return True
         return False
 
-    if case.get("history"):
-        if not attempt(dict(copy.deepcopy(case), history=None)):
+    if case.get("nested") and clause != "reentrant":
+        case["nested"] = None  # every other clause is judged on the call made alone
+    for _ in range(4):  # until nothing changes: a step that fails on the large case may succeed on the reduced one
+        before = canon(case)
+        if case.get("history"):
+            if not attempt(dict(copy.deepcopy(case), history=None)):
+                i = 0
+                while len(case["history"]) > 1 and i < len(case["history"]):
+                    c2 = copy.deepcopy(case)
+                    del c2["history"][i]
+                    if not attempt(c2):
+                        i += 1
+                # the arguments of every call built afresh instead of overwritten in place
+                if case.get("supply") == "inplace" or any(h.get("supply") == "inplace" for h in case["history"]):
+                    c2 = copy.deepcopy(case)
+                    c2["supply"] = "fresh"
+                    for h in c2["history"]:
+                        h["supply"] = "fresh"
+                    attempt(c2)
+        if case.get("nested") and case["nested"].get("pause") is not None:
+            attempt(dict(copy.deepcopy(case), nested=dict(case["nested"], pause=None)))  # the other call complete
+        if case.get("nested"):
+            # the overlapping call: plain, unweighted, fewer members
+            b = case["nested"]["call"]
+            if b["masked"]:
+                b2 = copy.deepcopy(b)
+                b2["masked"] = False
+                for m in b2["members"]:
+                    m["mask"] = [False] * len(m["mask"])
+                attempt(dict(copy.deepcopy(case), nested=dict(case["nested"], call=b2)))
+            if case["nested"]["call"]["weights"] is not None:
+                attempt(dict(copy.deepcopy(case), nested=dict(case["nested"], call=dict(copy.deepcopy(case["nested"]["call"]),
+                                                                                       weights=None))))
             i = 0
-            while len(case["history"]) > 1 and i < len(case["history"]):
-                c2 = copy.deepcopy(case)
-                del c2["history"][i]
-                if not attempt(c2):
+            while len(case["nested"]["call"]["members"]) > 1 and i < len(case["nested"]["call"]["members"]):
+                b2 = copy.deepcopy(case["nested"]["call"])
+                del b2["members"][i]
+                if b2["weights"] is not None:
+                    del b2["weights"][i]
+                if not attempt(dict(copy.deepcopy(case), nested=dict(case["nested"], call=b2))):
                     i += 1
-    if case["masked"]:
-        c2 = copy.deepcopy(case)
-        c2["masked"] = False
-        for m in c2["members"]:
-            m["mask"] = [False] * len(m["mask"])
-        attempt(c2)
-    if case["weights"] is not None:
-        attempt(dict(copy.deepcopy(case), weights=None)) or attempt(dict(copy.deepcopy(case), weights=[1.0] * n))
-    for k, v in DEFAULTS[case["agg"]].items():
-        if case["opts"].get(k) != v:
-            attempt(dict(copy.deepcopy(case), opts=dict(case["opts"], **{k: v})))
-    i = 0
-    while len(case["members"]) > 1 and i < len(case["members"]):
-        c2 = copy.deepcopy(case)
-        del c2["members"][i]
-        if c2["weights"] is not None:
-            del c2["weights"][i]
-        c2["perm"] = None
-        if not attempt(c2):
-            i += 1
-    # a single cell / row
-    step = 1 if case["agg"] in ("mean", "normal") else case["shape"][-1]
-    size = int(np.prod(case["shape"])) if case["shape"] else 1
-    if size > step:
-        for j in range(size // step):
+        if case.get("nested") and case["nested"].get("pause") is not None:
+            attempt(dict(copy.deepcopy(case), nested=dict(case["nested"], pause=None)))  # the other call complete
+        if case.get("scribble"):
+            attempt(dict(copy.deepcopy(case), scribble=False))
+        if case.get("alias"):
+            attempt(dict(copy.deepcopy(case), alias=[]))
+        for key in ("ctor", "dtype"):  # ordinary arrays: a mask array for every MaskedArray member, float64
+            if any(m.get(key) for m in case["members"]):
+                c2 = copy.deepcopy(case)
+                for m in c2["members"]:
+                    m.pop(key, None)
+                attempt(c2)
+        if case["masked"]:
             c2 = copy.deepcopy(case)
-            c2["shape"] = [1] if step == 1 else [1, step]
+            c2["masked"] = False
             for m in c2["members"]:
-                for key in ("data", "mask", "scale"):
-                    if key in m:
-                        m[key] = m[key][j * step:(j + 1) * step]
-            if attempt(c2):
-                break
+                m["mask"] = [False] * len(m["mask"])
+            attempt(c2)
+        if case["weights"] is not None:
+            attempt(dict(copy.deepcopy(case), weights=None)) or \
+                attempt(dict(copy.deepcopy(case), weights=[1.0] * len(case["members"])))
+        for k, v in DEFAULTS[case["agg"]].items():
+            if case["opts"].get(k) != v:
+                attempt(dict(copy.deepcopy(case), opts=dict(case["opts"], **{k: v})))
+        i = 0
+        while len(case["members"]) > 1 and i < len(case["members"]):
+            c2 = copy.deepcopy(case)
+            _drop_member(c2, i)
+            if not attempt(c2):
+                i += 1
+        # a single cell / row
+        step = 1 if case["agg"] in ("mean", "normal") else case["shape"][-1]
+        size = int(np.prod(case["shape"])) if case["shape"] else 1
+        if size > step:
+            for j in range(size // step):
+                c2 = copy.deepcopy(case)
+                c2["shape"] = [1] if step == 1 else [1, step]
+                for m in c2["members"]:
+                    for key in ("data", "mask", "scale"):
+                        if key in m:
+                            m[key] = m[key][j * step:(j + 1) * step]
+                if attempt(c2):
+                    break
+        if canon(case) == before:
+            break
     return case
 
 
@@ -795,7 +1387,19 @@ def fingerprint(case, clause):
     if hist:
         kinds = sorted({"masked" if h["masked"] else "plain" for h in hist})
         reused = "reused-instance(after " + "+".join(kinds) + " call)"
-    parts = [p for p in (o, f"weights={_wclass(case['weights'])}", "masked" if case["masked"] else "", reused) if p]
+        if case.get("supply") == "inplace" or any(h.get("supply") == "inplace" for h in hist):
+            reused += ",arguments-overwritten-in-place"
+    nested = ""
+    if case.get("nested"):
+        nested = "overlapping-call(" + ("masked" if case["nested"]["call"]["masked"] else "plain") + ")"
+    # (the weights are not part of the class of a re-entrancy defect: which weights expose a call that works with
+    # another call's state depends on the data of both calls)
+    wcls = "" if clause == "reentrant" else f"weights={_wclass(case['weights'])}"
+    dts = sorted({m["dtype"] for m in case["members"] if m.get("dtype")})
+    arrays = ("dtype=" + "+".join(dts) if dts else "")
+    if case["masked"] and any(m.get("ctor") == "nomask" and not any(m["mask"]) for m in case["members"]):
+        arrays += ("," if arrays else "") + "member-with-mask=nomask"
+    parts = [p for p in (o, wcls, "masked" if case["masked"] else "", arrays, reused, nested) if p]
     return f"C19|{clause}|{CLS[case['agg']]}.aggregate|{','.join(parts)}"
 
 
@@ -812,31 +1416,44 @@ def _report(ck, case, fails):
         if clause in seen:
             continue
         seen.add(clause)
-        small = shrink(case, clause)
+        small = shrink(_canon_overlap(case) if clause == "reentrant" and case.get("nested") else case, clause)
         d2 = [d for c, d in oracle(small, only=clause) if c == clause]
         ck.fail(fingerprint(small, clause), f"{CLS[case['agg']]}: {clause} fails", small, d2[0] if d2 else detail)
+
+
+_CASE_KEYS = ("agg", "opts", "shape", "masked", "members", "weights", "history", "supply", "alias", "scribble", "nested")
 
 
 def _check_cases(ck, cases, verbose=False):
     reals, reqs, pyfails, items = [], [], [], []
     for case in cases:
-        real = call(case)
+        ex = {}
+        # L2 is made on the call made alone; an overlapped run is tied to it by the clause `reentrant`
+        real = call(dict(case, nested=None) if case.get("nested") else case, extra=ex)
         reals.append(real)
         reqs.append(lean_req(case, real))
         its = []
         pyfails.append(oracle(case, items_out=its))  # the property on the real outputs (Python side)
         items.append(its)
         reqs.append({"op": "check", "items": [_item_wire(it) for _, _, it, _ in its]})
+        if ex.get("ids_reused"):
+            ck.count("history:argument-ids-recycled-from-dead-arrays")
     with ck.driver() as d:
         reps = d.ask_all(reqs)
     for k, (case, real) in enumerate(zip(cases, reals)):
         rep, chk = reps[2 * k], reps[2 * k + 1]["res"]
-        ck.case({k_: case.get(k_) for k_ in ("agg", "opts", "shape", "masked", "members", "weights", "history")},
-                nontrivial=_nontrivial(case))
+        ck.case({k_: case.get(k_) for k_ in _CASE_KEYS if case.get(k_) is not None}, nontrivial=_nontrivial(case))
         if case.get("history"):
             ck.count(f"history:earlier-calls={len(case['history'])}")
             ck.count("history:" + "+".join(sorted({"masked" if h["masked"] else "plain" for h in case["history"]}))
                      + "->" + ("masked" if case["masked"] else "plain"))
+            ck.count("history:arguments=" + (case.get("supply") or "fresh"))
+        if case.get("alias"):
+            ck.count("same-member-object-twice")
+        if case.get("nested"):
+            ck.count("overlap:via=" + case["nested"]["via"])
+            ck.count("overlap:" + ("masked" if case["masked"] else "plain") + "<-" +
+                     ("masked" if case["nested"]["call"]["masked"] else "plain"))
         ck.count("agg:" + case["agg"] + ":" + ",".join(f"{k_}={v}" for k_, v in sorted(case["opts"].items())))
         ck.count("weights:" + case.get("wkind", _wclass(case["weights"])))
         ck.count("masked" if case["masked"] else "plain")
@@ -863,6 +1480,92 @@ def _check_cases(ck, cases, verbose=False):
             _report(ck, case, fails)
 
 
+# --------------------------------------------------------------------------- real threads sharing one aggregator
+
+
+def run_threads(sc):
+    """every thread repeats its own calls on the ONE shared object; each result is compared at once with the result of
+    the same call on an object of its own -> list of (thread, index of the call, text)"""
+    base = {"agg": sc["agg"], "opts": sc["opts"]}
+    specs = [[dict(c, **base) for c in th] for th in sc["threads"]]
+    refs = [[call(c) for c in th] for th in specs]
+    ties = [[_mode_tie(c) for c in th] for th in specs]
+    args = [[(_members(c), None if c["weights"] is None else list(c["weights"])) for c in th] for th in specs]
+    inst = _new_instance(base)
+    _set_mag(*[c for th in specs for c in th])
+    bad, lock = [], threading.Lock()
+    bar = threading.Barrier(len(specs))
+
+    def work(t):
+        seen = set()
+        bar.wait()
+        with np.errstate(all="ignore"):
+            for _ in range(sc.get("reps", 60)):
+                for k, (ys, w) in enumerate(args[t]):
+                    if k in seen:
+                        continue
+                    try:
+                        got = ("ok", _norm(inst.aggregate(ys, w)))
+                    except Exception as e:  # noqa: BLE001
+                        got = ("exc", type(e).__name__, str(e)[:200])
+                    r = _same(got, refs[t][k], ties[t][k])
+                    if r:
+                        seen.add(k)
+                        with lock:
+                            bad.append((t, k, r))
+
+    old = sys.getswitchinterval()
+    sys.setswitchinterval(1e-6)
+    try:
+        ths = [threading.Thread(target=work, args=(t,), daemon=True) for t in range(len(specs))]
+        for th in ths:
+            th.start()
+        for th in ths:
+            th.join()
+    finally:
+        sys.setswitchinterval(old)
+    return sorted(bad)
+
+
+def _check_threads(ck, sc, verbose=False):
+    bad = run_threads(sc)
+    ck.case({k: sc[k] for k in ("agg", "opts", "threads")}, nontrivial=True)
+    ck.count(f"threads:{len(sc['threads'])}-threads-sharing-one-object")
+    ck.count("threads:" + "+".join(sorted({"masked" if c["masked"] else "plain" for th in sc["threads"] for c in th})))
+    if verbose:
+        print("replay:", {"threads": len(sc["threads"]), "calls-with-a-wrong-result": bad or "none"})
+    base = {"agg": sc["agg"], "opts": sc["opts"]}
+    for t, k, text in bad:
+        x = dict(sc["threads"][t][k], **base)
+        # a deterministic replay: a call of another thread (complete, or suspended at one of its own lines) at a
+        # source-line boundary of the failing call
+        found = None
+        others = [y for t2, th in enumerate(sc["threads"]) if t2 != t for y in th]
+
+        def unmasked(y):
+            return dict(y, masked=False, members=[dict(m, mask=[False] * len(m["mask"])) for m in y["members"]])
+
+        # cheapest first: a call of another thread complete; the same call on plain arrays, complete (any failing
+        # schedule is a witness - it need not be the one the threads happened to take); then suspended half-way
+        tries = [(y, None) for y in others] + [(unmasked(y), None) for y in others if y["masked"]] + [(y, 0) for y in others]
+        for y, pause in tries:
+            found = find_schedule(dict(x, perm=None, nested={"call": y, "via": "line", "at": 0, "pause": pause}),
+                                  budget=False)
+            if found:
+                break
+        if found:
+            _report(ck, found, [("reentrant", text)])
+        else:
+            kinds = "+".join(sorted({"masked" if c["masked"] else "plain" for th in sc["threads"] for c in th}))
+            o = ",".join(f"{k_}={v}" for k_, v in sorted(sc["opts"].items()) if DEFAULTS[sc["agg"]].get(k_) != v)
+            parts = [p for p in (o, f"weights={_wclass(x['weights'])}", "masked" if x["masked"] else "",
+                                 f"threads({kinds})") if p]
+            ck.fail(f"C19|concurrent-calls|{CLS[sc['agg']]}.aggregate|{','.join(parts)}",
+                    f"{CLS[sc['agg']]}: a call on an aggregator object shared by {len(sc['threads'])} threads returns another "
+                    f"result than the same call on an object of its own", sc,
+                    f"thread {t}, call {k}: {text} (timing-dependent: the replay repeats the threaded run)")
+
+
 def _corpus():
     import json
     from .common import VERIF
@@ -877,9 +1580,17 @@ def _corpus():
 def run(ck):
     ck.rule = ("generated cases: aggregator x options x 1..8 members x shapes (0-D..3-D) x weights "
                "(None/uniform/normalised/raw/some zero/all zero/wrong length) x plain/masked (cell masks for "
-               "mean/normal, row masks for categorical; fully masked members and cells); dyadic values; "
+               "mean/normal, row masks for categorical; fully masked members and cells); dyadic values; member arrays also of "
+               "integer / bool dtype (mean: near the limits of the dtype, mixed dtypes; mode: 0/1 votes) and MaskedArrays "
+               "without a mask (nomask); "
                "plus histories: 2..4 aggregate() calls on ONE aggregator object mixing plain/masked inputs, member "
                "counts, shapes and weights, every call after the first judged like a call on a fresh instance; "
+               "rounds: 2..5 calls with arguments of one class and shape, the argument objects (lists and arrays) "
+               "overwritten in place or dropped and rebuilt (recycled ids), returned arrays overwritten by the caller, "
+               "the same member object given twice; overlapping calls: a second call on the same object run from inside "
+               "lazily evaluated weights (collections.abc.Sequence / __array__ array-like, k-th access) or at the k-th "
+               "source line of the call (complete, or suspended at its own j-th line until the first call returned); "
+               "real threads: 2..3 threads repeating 1..3 calls each on one shared object (switch interval 1e-6 s); "
                "distinct by canonical input; non-trivial = >=2 members and (weights given or masked)")
     ck.assumptions = [
         "IEEE rounding: model is exact over Rat, compared within 1e-12 (relative) on dyadic inputs; scales compared squared",
@@ -887,6 +1598,9 @@ def run(ck):
         "categorical aggregators: masks are row-wise (a member's class distribution for a sample is present or masked as a whole)",
         "normal members: scale > 0 in the generator (at zero total variance the code's E[x^2]-E[x]^2 can round below 0)",
         "np.argmax / np.max / np.ma.average are NumPy's; their results are compared, their code is not modelled",
+        "overlapping calls: one of the two calls advances at a time, switches happen at source-line boundaries of the "
+        "aggregator package (sys.settrace) or inside NumPy's conversion of the weights; finer interleavings only through "
+        "the real-thread runs (timing-dependent, sound: a wrong result is a wrong result)",
     ]
     # malformed stream: the validation branches of aggregate() / the constructor (model: `validate`)
     mal = [(agg, kind) for agg, kinds in MALFORMED.items() for kind in kinds]
@@ -905,8 +1619,16 @@ def run(ck):
     cases += [gen_case(ck.rng) for _ in range(n)]
     for _ in range(ck.pick(500, 7000)):
         cases += gen_history(ck.rng)
+    for _ in range(ck.pick(250, 1500)):
+        cases += gen_rounds(ck.rng)
+    cases += [gen_nested(ck.rng) for _ in range(ck.pick(350, 2000))]
     _check_cases(ck, cases)
+    for _ in range(ck.pick(24, 100)):
+        _check_threads(ck, gen_threads(ck.rng))
 
 
 def replay(ck, case):
-    _check_cases(ck, [case], verbose=True)
+    if "threads" in case:
+        _check_threads(ck, case, verbose=True)
+    else:
+        _check_cases(ck, [case], verbose=True)
